@@ -1125,6 +1125,12 @@ class SpectrumResult:
 
     def __getattr__(self, name: str) -> Any:
         """Lazy computation and caching of spectral properties."""
+        # copy/pickle probe a bare instance (no __dict__ yet): never resolve the
+        # containers themselves, or dunder hooks, through this method.
+        if name in ("_data", "_cache", "_config") or (
+            name.startswith("__") and name.endswith("__")
+        ):
+            raise AttributeError(name)
         if name in self._cache:
             return self._cache[name]
 
